@@ -8,6 +8,8 @@ Line-protocol driver for C22. One server configuration per case, then requests.
   req <VERB> <path> inner=<accept:NAME|anon|failure|wrapped|value|perm|unavail|rpcother|other|nilnil|ctx+<refusal>>
       proof=<absent|valid|bad> ct=<arrow|other> body=<empty|garbage|valid|mismatch|count:N|tok-unknown|tok-jws|tok-down>
       sess=<absent|garbage|fresh>                                           -> gate=<denied|open|na> ev=<...|->
+  fail <pkce-nometa|pkce-noclient|oauthmeta-invalid|introspect-noresolver|introspect-noprincipals>
+      a setter call that fails validation, made on the live server (also `failed=a,b` on the cfg line)  -> ok
 -/
 namespace Vgi.Drive.C22
 open Vgi Vgi.RouteAuth
@@ -154,12 +156,21 @@ def showResp (cfg : Cfg) (q : Req) (r : Resp) : String :=
     let ev := if r.events.isEmpty then "-" else ",".intercalate (r.events.map showEvent)
     s!"gate={g} ev={ev}"
 
+/-- setter calls the harness can make that are rejected by the setter's own validation -/
+def failingCalls : List String :=
+  ["pkce-nometa", "pkce-noclient", "oauthmeta-invalid", "introspect-noresolver", "introspect-noprincipals"]
+
 def step (st : Option Cfg) (ws : List String) : Option Cfg × String :=
   match ws with
   | "cfg" :: rest =>
     match parseCfg rest with
     | some c => (some c, "ok")
     | none => (st, "bad-op")
+  | ["fail", name] =>
+    -- a setter call that FAILS validation (returns an error): nothing about the server changes
+    match st with
+    | none => (st, "err:no-cfg")
+    | some _ => if failingCalls.contains name then (st, "ok") else (st, "bad-op")
   | "req" :: verb :: path :: rest =>
     match st with
     | none => (st, "err:no-cfg")
